@@ -212,11 +212,26 @@ func checkState(r *ev.Run, w *qnet.World, st *stats, prios [][]spectypes.Operato
 	sig := "no-terminating-continuation"
 	_, _, end := continuationW(w, nil, true, false, bound)
 	und := len(end.Undecided())
-	if und < len(end.Ops) && und <= w.C.F() {
+	// did a laggard ever process a decided message (aggregated commit) - before or during the
+	// continuation - and stay undecided? then this is NOT the known "missed the decided message" case
+	sawDecided := false
+	for _, o := range end.Undecided() {
+		for _, tr := range [][]qnet.Event{w.Trace, end.Trace} {
+			for _, e := range tr {
+				if (e.Kind == qnet.Deliver || e.Kind == qnet.Redeliver) && e.To == o.ID && e.Msg >= 0 {
+					m := w.P.List[e.Msg].Signed
+					if m.Message.MsgType == specqbft.CommitMsgType && len(m.Signers) > 1 && w.C.CertOK(m) == nil {
+						sawDecided = true
+					}
+				}
+			}
+		}
+	}
+	if und < len(end.Ops) && und <= w.C.F() && !sawDecided {
 		// the others decided and stopped: decided instances neither time out nor answer round-changes
 		// with their certificate, so <= f lagging correct operators can never assemble a quorum
 		sig = "no-terminating-continuation lagging<=f-after-the-others-decided"
-	} else {
+	} else if und == len(end.Ops) {
 		// correct operators locked on different values in different rounds: a proposal's round-change
 		// justifications travel without their own full data and every prepared one is hashed against
 		// the proposed value, so no proposal can ever be justified by a quorum containing both
